@@ -19,6 +19,7 @@ func init() {
 }
 
 func runC09(w *World, r *Report, tier string) {
+	wireRule(w, r, "W1", "<a h=…/> reports the count; <resume h=…/> repeats it", wireSMAnswer, wireSMResume)
 	r.Rule("O1", "counted types: per dynamic type of the received packet, every feasible path of one recv iteration has exactly one `Inbound = Inbound + 1` for Message/Presence/*IQ and none for any other type")
 	r.Rule("O2", "writers: SMState.Inbound is stored only by recv's increment; whole-SMState stores into the session are zero/fresh states, and none of them lies on a path to a successful resumption")
 	r.Rule("O3", "reported values: SMAnswer.H is a plain load of Session.SMState.Inbound; SMResume.H is the address of that field")
